@@ -1,5 +1,5 @@
 """C02 — the score: which strings are compared at which effective block size, on every entry point (not the score value)."""
-from ..rules import effbs, blocksize, convert, typestate, casts, vis, summary, features, beliefs, eqord, data
+from ..rules import effbs, blocksize, convert, typestate, casts, vis, summary, features, beliefs, eqord, data, validate
 
 EXPL = ("Decides (SA-EFFBS, dimension analysis over MIR): at every scorer call site whose operands are block hashes of hash objects "
         "(FuzzyHashCompareTarget::compare* relation-specific variants, FuzzyHashData::compare via compare_optimized_internal) the two "
@@ -44,6 +44,7 @@ def run(ctx):
         if c not in ("nodef",):
             ctx.guard("C02", "easy", lambda: effbs.string_front_end(ctx, prog))
         ctx.guard("C02", "const values", lambda: data.const_census(ctx, prog, data.CONST_SCOPES["C02"], floor=1))
+        ctx.guard("C02", "element-asserts", lambda: validate.element_range_asserts(ctx, prog))
         ctx.guard("C02", "summaries", lambda: summary.check(ctx, prog, 'internals::compare::|compare_easy::', floor=10))
         ctx.guard("C02", "path summaries", lambda: summary.check_paths(ctx, prog, 'internals::compare::|compare_easy::', floor=25))
         if c in ("dbg", "unsafe_dbg", "strict_dbg"):
